@@ -36,7 +36,8 @@ def run(ctx):
     cs = symcalls(prog, f, S)
     for op, truth, arg in (("checked_add", True, "(p1 Sub! %s).0" % E), ("checked_sub", False, "(%s Sub! p1).0" % E)):
         hits = [c for c in cs if c[1].endswith("SystemTime::" + op)]
-        conv = [c for c in cs if c[1].endswith("timestamp_delta_to_duration") and c[2] == [arg]]
+        alt = "core::num::<impl u64>::checked_sub(p1,%s)@Some.0" % E if truth else None  # `match timestamp.checked_sub(EPOCH) { Some(delta) => .. }`
+        conv = [c for c in cs if c[1].endswith("timestamp_delta_to_duration") and (c[2] == [arg] or (alt and c[2] == [alt]))]
         def side(b):
             lo, hi, ex = interval_of(S.bool_facts_at(b), "p1")
             return (lo is not None and lo >= EPOCH) if truth else (hi is not None and hi <= EPOCH)
